@@ -162,6 +162,25 @@ func NewParam(method string) proto.Message {
 		return &pb.ScanRequest{}
 	case "Multi":
 		return &pb.MultiRequest{}
+	// MasterService (the admin client)
+	case "GetClusterStatus":
+		return &pb.GetClusterStatusRequest{}
+	case "CreateTable":
+		return &pb.CreateTableRequest{}
+	case "DeleteTable":
+		return &pb.DeleteTableRequest{}
+	case "EnableTable":
+		return &pb.EnableTableRequest{}
+	case "DisableTable":
+		return &pb.DisableTableRequest{}
+	case "getProcedureResult":
+		return &pb.GetProcedureResultRequest{}
+	case "GetTableNames":
+		return &pb.GetTableNamesRequest{}
+	case "MoveRegion":
+		return &pb.MoveRegionRequest{}
+	case "SetBalancerRunning":
+		return &pb.SetBalancerRunningRequest{}
 	}
 	return nil
 }
